@@ -128,8 +128,41 @@ def check_laws(case, ctx):
 
 
 @st.composite
+def s_lazy(draw):
+    fam = draw(LD.bar_family(1, 6))
+    return {"fam": fam, "p": draw(PS), "first": draw(st.sampled_from(["p_norm", "sup_norm"]))}
+
+
+def check_lazy(case, ctx):
+    """PersLandscapeExact(..., compute=False): the very first use of the object is the norm"""
+    bars = case["fam"]["dgms"][0]
+    p = case["p"]
+    eager = LD.exact_from_bars(ctx, bars)
+    if LD.shortcut_fired(eager):
+        ctx.skip("exact landscape affected by the C03 finding (shortcut fired)")
+    ctx.label("first:" + case["first"], p_class(p))
+    ctx.nontrivial(len(bars) >= 2)
+    lazy = ctx.call(PersLandscapeExact, dgms=[np.array(bars, dtype=float)], hom_deg=0, compute=False)
+    ref = pl.p_norm(eager.critical_pairs, p)
+    sup = pl.sup_norm(eager.critical_pairs)
+    if case["first"] == "p_norm":
+        v = norm_of(ctx, lazy, p)
+        ctx.require(abs(v - ref) <= 1e-8 * ref + 1e-300, "p_norm_lazy", lambda: "first call p_norm(%r) on a lazily computed landscape = %r, integral %r; bars=%s" % (p, v, ref, bars))
+        s = float(ctx.call(lazy.sup_norm))
+    else:
+        s = float(ctx.call(lazy.sup_norm))
+        v = norm_of(ctx, lazy, p)
+        ctx.require(abs(v - ref) <= 1e-8 * ref + 1e-300, "p_norm_lazy", lambda: "p_norm(%r) = %r, integral %r" % (p, v, ref))
+    ctx.require(close(s, sup, LD.coord_scale(bars)), "sup_norm_lazy", lambda: "sup_norm on a lazily computed landscape = %r, max |ordinate| %r" % (s, sup))
+
+
+@st.composite
 def s_stab(draw):
     fam = draw(LD.bar_family(1, 7, count=2))
+    if draw(st.integers(0, 3)) == 0:
+        # related diagrams: D2 = D1 plus extra bars (D1 a sub-multiset of D2), so that leading landscape functions can cancel exactly
+        fam["dgms"][1] = [list(b) for b in fam["dgms"][0]] + fam["dgms"][1][:3]
+        fam["related"] = True
     return {"fam": fam, "p": draw(PS), "num_steps": draw(st.sampled_from([10, 25, 60, 120])), "pad": draw(st.sampled_from([0.0, 0.2]))}
 
 
@@ -141,7 +174,7 @@ def check_stability(case, ctx):
     P2 = LD.exact_from_bars(ctx, D2)
     if LD.shortcut_fired(P1) or LD.shortcut_fired(P2):
         ctx.skip("exact landscape affected by the C03 finding (shortcut fired)")
-    ctx.label("mode:" + fam["mode"], p_class(p))
+    ctx.label("mode:" + fam["mode"], p_class(p), "sub_multiset" if fam.get("related") else None)
     diff = ctx.call(lambda: P1 - P2)
     sup = float(ctx.call(diff.sup_norm))
     db = M.bottleneck_ref(D1, D2)
@@ -200,6 +233,9 @@ CLAUSES = [
     Clause("norm_laws", s_laws, check_laws, quick=4000, thorough=60000,
            rule="triangle and reverse triangle inequality for A+B and A-B, absolute homogeneity, ||A-A|| = 0, and ||A-B|| equals the integral of "
                 "the difference's own critical pairs; non-trivial = the difference has a zero-crossing segment and p is not an odd integer"),
+    Clause("lazy_first_use", s_lazy(), check_lazy, quick=1500, thorough=20000,
+           rule="PersLandscapeExact(dgms, compute=False) whose FIRST use is p_norm (or sup_norm): the value equals the integral of the eagerly "
+                "computed twin; non-trivial = >= 2 bars"),
     Clause("stability", s_stab(), check_stability, quick=3000, thorough=40000,
            rule="sup|lambda(D1)-lambda(D2)| <= bottleneck (independent reference) for exact landscapes and, with + step slack, for grid landscapes on "
                 "a common covering grid; p-norm of those differences vs the reference integral; non-trivial = crossing segment and >= 2 bars each"),
